@@ -354,13 +354,30 @@ def _is_attr_lambda(e):
                 b = strip_doc(d.body)
                 v = d.args.args[0].arg
                 return len(b) == 1 and isinstance(b[0], ast.Return) and isinstance(b[0].value, ast.Call) \
-                    and norm(b[0].value.func) == "_filter_by_name" and [norm(a) for a in b[0].value.args] == [v, "name", "value"] \
-                    and not b[0].value.keywords
+                    and norm(b[0].value.func) == "_filter_by_name" and _binds_name_value(v, b[0].value.args, b[0].value.keywords)
             e = d if d is not None else r
         else:
             e = r
+    if isinstance(e, ast.Call) and norm(e.func) in ("partial", "functools.partial") and e.args and norm(e.args[0]) == "_filter_by_name":
+        # partial(_filter_by_name, name=name, value=value): the node stays the one positional argument
+        return len(e.args) == 1 and _binds_name_value(None, [], e.keywords)
     if not isinstance(e, ast.Lambda) or len(e.args.args) != 1:
         return False
     v = e.args.args[0].arg
     b = e.body
-    return isinstance(b, ast.Call) and norm(b.func) == "_filter_by_name" and [norm(a) for a in b.args] == [v, "name", "value"] and not b.keywords
+    return isinstance(b, ast.Call) and norm(b.func) == "_filter_by_name" and _binds_name_value(v, b.args, b.keywords)
+
+
+def _binds_name_value(nodevar, args, keywords):
+    """the call binds (node, name, value) of _filter_by_name to (<nodevar>, name, value), positionally or by keyword"""
+    order = ["node", "name", "value"]
+    b = {}
+    for prm, a in zip(order, args):
+        b[prm] = norm(a)
+    for k in keywords:
+        if k.arg is None or k.arg in b:
+            return False
+        b[k.arg] = norm(k.value)
+    if nodevar is None:
+        return b == {"name": "name", "value": "value"}
+    return b == {"node": nodevar, "name": "name", "value": "value"}
